@@ -121,6 +121,28 @@ def run(ctx):
     extra += ['', '\n', ' ', '//', 'a//b\nc', '1__2', '0x', '0x_1', "''", "'", '"', '"\\', '@', '!', '!=', '! x', '@if', '09_', '0b12', '0o8',
               '١٢_٣', '"\\u{110000}"', '"\\u{D800}"', "'é'", "'\\xff'", 'x.length', 'a<=b', 'a< =b', 'a??b', 'a? ?b']
     frontend.lex_suite(ctx, ctx.budget(3000, 60000), extra)
+    # the file path into the lexer (SourceCode.from_file, what the command line uses): the same tokens and spans as from_string,
+    # whether or not the file ends with a line break, blanks or a comment
+    fbad = 0
+    ftexts = [t for t in extra if isinstance(t, str) and t and '\r' not in t and '\x00' not in t][-60:] + ['a', 'a b', 'x = 1;', 'empty f() {\n}', '// c', 'a // c', '"s"', 'a\n\nb']
+    for t in ftexts:
+        try:
+            base = frontend.py_lex(t)
+        except Exception:
+            continue
+        strip = lambda ls: [l for l in ls if not l.startswith('#eof')]
+        for tail in ('', '\n', '\n\n', ' ', '\n '):
+            try:
+                got = frontend.py_lex_file(t, tail)
+            except Exception as e:
+                got = ['#internal %s' % type(e).__name__]
+            if strip(got) != strip(base) and not any(l.startswith('#error') for l in base):
+                fbad += 1
+                if fbad <= 2:
+                    ctx.violations.append(dict(what='a source read from a file lexes differently from the same text as a string (file tail %r): %r vs %r' % (tail, strip(got)[-2:], strip(base)[-2:]),
+                                               kind='FROMFILE', source=t, file_tail=tail, args=[], config={}))
+    ctx.stats['from_file'] = dict(texts=len(ftexts), tails=5, failures=fbad)
+    ctx.say('from_file vs from_string: %d texts x 5 file tails, %d failures' % (len(ftexts), fbad))
     # re-layout invariance on the implementation
     from hidc.lexer import lex, SourceCode
     bad = 0
